@@ -496,6 +496,9 @@ func (p *H265FragmentationUnitPacket) Unmarshal(payload []byte) ([]byte, error) 
 	fuHeader := H265FragmentationUnitHeader(payload[2])
 	payload = payload[3:]
 
+	// only the first fragment carries a DONL, do not keep the one of an earlier packet
+	p.donl = nil
+
 	if fuHeader.S() && p.mightNeedDONL {
 		// sizeof(uint16)
 		if len(payload) <= 2 {
